@@ -12,6 +12,7 @@ import (
 	"fmt"
 	"io"
 	"os"
+	"runtime/debug"
 	"strings"
 	"time"
 
@@ -88,7 +89,7 @@ func (rn *runner) familyFloors() {
 		"register:err:returnCount": 500, "register:err:secondNotError": 40, "register:err:thirdNotError": 100,
 		"register:err:secondNotHeader": 50, "register:err:notFunc": 2, "register:list": 200,
 		// round 5
-		"concurrent-actors:HandleReader": 50, "concurrent-actors:http-gzip": 100, "concurrent-actors:http": 50, "concurrent-actors:ws": 100, "concurrent-actors:slow-reader": 100,
+		"concurrent-actors:HandleReader": 50, "concurrent-actors:http-gzip": 100, "concurrent-actors:http": 50, "concurrent-actors:ws": 100, "concurrent-actors:slow-reader": 100, "ws-params:frame-within-limit": 2, "ws-params:frame-over-limit": 2, "ws-params:shutdown": 1,
 		"events:inputs": 500, "events:OnRequestFailed": 30, "events:OnRequestHandled": 300, "events:header-returned": 80,
 		"events:header-merged-from-several-entries": 10, "events:http:POST": 150, "events:http:gzip-body": 40,
 		"events:http:content-length-set": 40, "events:http:content-type-overridden-by-handler": 2,
@@ -524,6 +525,17 @@ func main() {
 	f := lib.ParseFlags()
 	res := lib.NewResult("inputs = byte strings sent to jsonrpc.Server.HandleReader (and, in the transport part, through " +
 		"jsonrpc.HTTP / jsonrpc.Websocket); non-trivial = distinct input whose first JSON value parses and is an object or an array")
+	// A panic of the server that escapes in the harness' own goroutine (a call site that is not wrapped in lib.Try)
+	// must not cost the result: everything recorded so far is written, plus the panic itself as a violation.
+	defer func() {
+		if p := recover(); p != nil {
+			res.Violate(lib.Violation{Sig: "server-panics", What: fmt.Sprintf("a panic escaped into the harness (stage not guarded): %v\n%s", p, firstLines(string(debug.Stack()), 30)),
+				Replay: map[string]any{"kind": "panic-in-harness-goroutine", "seed": f.Seed}})
+			res.Fatalf("a stage of the harness was aborted by a panic of the code under test: %v", p)
+			flushStats(res)
+			lib.Finish(f, res)
+		}
+	}()
 	if os.Getenv("C11_MODE") == "conc" { // child of the thorough tier, built with -race
 		concurrentStage(res, f.Seed, false)
 		concSeqStage(res, f.Seed, false)
@@ -724,6 +736,7 @@ func main() {
 	rn.registerTie(r.Fork(8086))
 	// 4d. listener calls, headers, logging at trace level (round 5)
 	rn.eventsTie(r.Fork(5150))
+	rn.wsParamsTie()
 	// 5. request deadlines while batch entries queue for a pool slot
 	rn.deadlines(r.Fork(777))
 	// 6. handlers that fail, over the transports
